@@ -274,6 +274,7 @@ func runDriver(prop *Property, tier, onlyKey string, noEvid, dump bool) int {
 			sem <- struct{}{}
 			defer func() { <-sem }()
 			cmd := exec.Command(self, "-worker", "-property", prop.ID, "-tags", c.Tags, "-goarch", c.GOARCH)
+			cmd.Env = append(os.Environ(), "ARCHECHECK_TIER="+tier)
 			var out, errb bytes.Buffer
 			cmd.Stdout, cmd.Stderr = &out, &errb
 			err := cmd.Run()
@@ -306,7 +307,8 @@ func runDriver(prop *Property, tier, onlyKey string, noEvid, dump bool) int {
 	// merge by key: worst status wins; remember configs
 	type merged struct {
 		Obligation
-		Configs []string
+		Configs    []string
+		BadConfigs []string
 	}
 	byKey := map[string]*merged{}
 	var order []string
@@ -321,10 +323,13 @@ func runDriver(prop *Property, tier, onlyKey string, noEvid, dump bool) int {
 				byKey[o.Key] = m
 				order = append(order, o.Key)
 			} else if rank(o.Status) > rank(m.Status) {
-				cf := m.Configs
-				*m = merged{Obligation: o, Configs: cf}
+				cf, bc := m.Configs, m.BadConfigs
+				*m = merged{Obligation: o, Configs: cf, BadConfigs: bc}
 			}
 			m.Configs = append(m.Configs, o.Config)
+			if o.Status != "discharged" {
+				m.BadConfigs = append(m.BadConfigs, o.Config)
+			}
 		}
 	}
 	sort.Strings(order)
@@ -369,14 +374,14 @@ func runDriver(prop *Property, tier, onlyKey string, noEvid, dump bool) int {
 			continue
 		}
 		violations++
-		fmt.Printf("  %-9s %s\n            at %s (configs: %s)\n            %s\n", "kind="+m.Status, m.Key, m.Pos, strings.Join(uniq(m.Configs), " "), m.Detail)
+		fmt.Printf("  %-9s %s\n            at %s (configs: %s)\n            %s\n", "kind="+m.Status, m.Key, m.Pos, strings.Join(uniq(m.BadConfigs), " "), m.Detail)
 		path := ""
 		if !noEvid {
 			os.MkdirAll(vdir, 0o755)
 			h := sha1.Sum([]byte(k))
 			path = filepath.Join(vdir, fmt.Sprintf("%s-%x.json", prop.ID, h[:6]))
 			rec := map[string]any{"property": prop.ID, "key": k, "rule": m.Rule, "kind": m.Status, "func": m.Func,
-				"construct": m.Construct, "pos": m.Pos, "detail": m.Detail, "configs": uniq(m.Configs), "tier": tier,
+				"construct": m.Construct, "pos": m.Pos, "detail": m.Detail, "configs": uniq(m.BadConfigs), "tier": tier,
 				"rule_text": ruleText(prop, m.Rule)}
 			b, _ := json.MarshalIndent(rec, "", " ")
 			os.WriteFile(path, b, 0o644)
@@ -445,6 +450,14 @@ func runDriver(prop *Property, tier, onlyKey string, noEvid, dump bool) int {
 			"assumptions": prop.Assumptions,
 			"wall_s":      time.Since(start).Seconds(),
 			"violations":  violations,
+		}
+		if tier == "thorough" {
+			if sb, err := os.ReadFile(filepath.Join(verifDir(), "evidence", "sensitivity", prop.ID+".json")); err == nil {
+				var sv any
+				if json.Unmarshal(sb, &sv) == nil {
+					ev["coverage"].(map[string]any)["sensitivity"] = sv
+				}
+			}
 		}
 		b, _ := json.MarshalIndent(ev, "", " ")
 		os.MkdirAll(filepath.Join(verifDir(), "evidence"), 0o755)
